@@ -262,18 +262,6 @@ statement only replays gates whose target is a marked ancilla, never the result 
 Proofs: `QV/Proofs/CompilerSem.lean` (`exprSem` / `argsSem` / `xorSem` by mutual structural
 recursion, `compile_single_sem`). -/
 
-/-- the decidable class covered by `C02_fragment_partial`: one definition `r = e`; argument names
-pairwise distinct, different from `r` and not reserved (`TRUE`, `FALSE`, `__…`, `anc_…`); `e` built
-from argument symbols with `Not`/`And`/`Or`/`Xor` only (`overInputs`); no compound sub-expression
-of `e` occurs twice under the structural comparison the cache uses (`treeLike`); every requested
-return name is `r` -/
-def inFragment (inputs : List String) (defs : List (String × BExp)) (rets : List String) : Bool :=
-  match defs with
-  | [(r, e)] =>
-    decide inputs.Nodup && inputs.all (fun n => n != r && !reservedName n) &&
-      overInputs inputs e && treeLike e && rets.all (· == r)
-  | _ => false
-
 /-- **C02 on the tree-like single-definition fragment**, final uncomputation off (`unc = false`) or
 on: every successful run of the compiler model – for every admissible sequence of ancilla choices –
 is `Correct`: on every classical input the qubit mapped to the return name ends with the value of
